@@ -38,6 +38,7 @@ type c16Session struct {
 	HasCB                   bool
 	Gzip                    bool
 	Challenge               string
+	Eol                     string // what the scripted master sends after the CR of each line
 }
 
 func (c c16Session) modelLine(s *fbb.Session) string {
@@ -91,11 +92,12 @@ func c16RunSession(c c16Session) (wire []byte, sess *fbb.Session, err error, hun
 	}
 	a, b := memPipe(0)
 	go func() {
-		fmt.Fprintf(b, "[WL2K-5.0-B2FWIHJM$]\r")
+		eol := "\r" + c.Eol // (a master that ends its lines with CR LF, or pads them with a NUL)
+		fmt.Fprintf(b, "[WL2K-5.0-B2FWIHJM$]%s", eol)
 		if c.Challenge != "" {
-			fmt.Fprintf(b, ";PQ: %s\r", c.Challenge)
+			fmt.Fprintf(b, ";PQ: %s%s", c.Challenge, eol)
 		}
-		fmt.Fprintf(b, "CMS>\r")
+		fmt.Fprintf(b, "CMS>%s", eol)
 		// read until FF\r then quit
 		var got []byte
 		buf := make([]byte, 4096)
@@ -131,7 +133,7 @@ func runC16(ctx *Ctx) error {
 	if !bytes.Equal(salt, fbb.VerifWinlinkSecureSalt()) {
 		res.Count("salt-differs-from-published")
 	}
-	res.Rule = "cases: (a) byte strings -> crypto/md5 vs model md5; (b) (challenge,password) -> secureLoginResponse vs model vs independent recipe; (c) slave Session answering a scripted ;PQ handshake vs model send_handshake (auxiliary addresses incl. ones that share the Addr part and differ in Proto, each with its own password). Non-trivial: (b),(c) with non-empty challenge; distinct by input tuple."
+	res.Rule = "cases: (a) byte strings -> crypto/md5 vs model md5; (b) (challenge,password) -> secureLoginResponse vs model vs independent recipe; (b') cleanString on protocol lines with white space / NUL / LF padding in every order vs the model; (c) slave Session answering a scripted ;PQ handshake (lines ending in CR, CR LF, CR LF NUL, CR NUL) vs model send_handshake (auxiliary addresses incl. ones that share the Addr part and differ in Proto, each with its own password). Non-trivial: (b),(c) with non-empty challenge; distinct by input tuple."
 
 	// ---- (a) md5 ----
 	var lines []string
@@ -184,6 +186,18 @@ func runC16(ctx *Ctx) error {
 			res.Sample(map[string]string{"kind": "response", "challenge": c, "password_hex": hexs([]byte(p)), "impl": got})
 		}
 	}
+	// ---- (b') how a received line is cleaned before it is classified (;PQ, SID, prompt): white
+	// space, NUL and line-feed padding around it in every order
+	junk := []string{"", " ", "\n", "\t", "\x00", "\n\x00", "\x00\n", " \x00 ", "\x00\x00", "\r\n", "\n\x00\n"}
+	for _, a := range junk {
+		for _, b := range []string{";PQ: 23753528", "[WL2K-5.0-B2FWIHJM$]", "CMS>", "", "a", "\x00", " ", ";FW: LA1B"} {
+			for _, c := range junk {
+				lines = append(lines, "cleanstring "+ts(a+b+c))
+				impl = append(impl, ts(fbb.VerifCleanString(a+b+c)))
+				res.Count("clean-line")
+			}
+		}
+	}
 	out, err := ctx.Model.RunParallel(lines, 8)
 	if err != nil {
 		return err
@@ -220,6 +234,7 @@ func runC16(ctx *Ctx) error {
 				c.Aux = append(c.Aux, r.StringFrom("abcdefgh", 3)+"@"+r.StringFrom("abcdefgh", 4)+".org")
 			}
 		}
+		c.Eol = []string{"", "", "\n", "\n\x00", "\x00"}[i%5]
 		if i%7 == 3 {
 			// addresses that share the Addr part and differ in Proto (each with a password of its own):
 			// the session's own call sign under another protocol, and one name under two protocols
